@@ -17,11 +17,16 @@ def run(ctx):
         kinds = []
         for _ in range(1 + r.below(3)):
             fn = r.pick(edits_all)
+            if fn in linter.UNSAFE and any(k.startswith("!") for k in kinds):
+                # at most one unsafe edit per pair: two of them can add up to a safe change (a field appended under a used bit whose bit is then
+                # moved to a free one) or hide which one broke the wire format; safe and neutral edits may still surround it
+                continue
             res = fn(s2, r)
             if res:
                 kinds.append(("!" if fn in linter.UNSAFE else "") + "%s@%s" % res)
-        if not kinds or (any("add-mask-to-field" in k for k in kinds) and any("remove-mask-from-field" in k for k in kinds)):
-            continue  # two edits that may undo each other leave no classifiable edit
+        if not kinds or (any("add-mask-to-field" in k for k in kinds) and any("remove-mask-from-field" in k for k in kinds)) or \
+                (any(k.startswith("append-") or k.startswith("!append-") for k in kinds) and any("remove-field" in k or "remove-constructor" in k for k in kinds)):
+            continue  # two edits that may undo each other (mask added then removed, a field or constructor appended then removed) leave no classifiable edit
         pairs.append((s.text(), s2.text()))
         meta.append(kinds)
         schemas.append((s, s2))
